@@ -69,6 +69,7 @@ def do_confirm(name):
         rc, out = sh(f"sh {d}/run.sh {wt}", cwd=d, timeout=600)
         res["clean_demo_rc"] = rc
         res["clean_demo_tail"] = out[-400:]
+        res["clean_demo_says_holds"] = "PROPERTY HOLDS" in out
         rc, out = sh(f"git apply {d}/patch.diff", cwd=wt)
         res["patch_applies"] = rc == 0
         if rc:
@@ -79,14 +80,15 @@ def do_confirm(name):
         rc, out = sh(f"sh {d}/run.sh {wt}", cwd=d, timeout=600)
         res["mutated_demo_rc"] = rc
         res["mutated_demo_tail"] = out[-400:]
+        res["mutated_demo_says_violated"] = "PROPERTY VIOLATED" in out
     finally:
         sh(f"git -C {REPO} worktree remove --force {wt}")
         sh(f"rm -rf {wt}")
         # demo build products
         sh("git clean -fdxq .", cwd=d) if False else None
-    res["confirmed"] = bool(res.get("clean_tests_pass") and res.get("clean_demo_rc") == 0 and "PROPERTY HOLDS" in res.get("clean_demo_tail", "")
+    res["confirmed"] = bool(res.get("clean_tests_pass") and res.get("clean_demo_rc") == 0 and res.get("clean_demo_says_holds")
                             and res.get("patch_applies") and res.get("mutated_tests_pass") and res.get("mutated_demo_rc") not in (0, None)
-                            and "PROPERTY VIOLATED" in res.get("mutated_demo_tail", ""))
+                            and res.get("mutated_demo_says_violated"))
     json.dump(res, open(os.path.join(d, "confirm.json"), "w"), indent=1)
     print(json.dumps(res, indent=1))
     return 0 if res["confirmed"] else 1
